@@ -46,9 +46,10 @@ func init() {
 		Rules: []Rule{
 			{ID: "R09.1", Configs: "all", Run: ruleR09_1},
 			{ID: "R09.2", Configs: "all", Run: ruleR09_2},
+			{ID: "R09.3", Configs: "all", Run: ruleR09_3},
 		},
 		Explanation: "Decides one necessary clause of partition independence: the compression trigger is a function of accumulated state only. (R09.1) In every LevelCompressor.Accumulate the data parameter is used only as the source of the copy into the buffer (plus an optional len(data)==0 fast path); the trigger result and every state update depend on constants, receiver fields and the copy count; " +
-			"(R09.2) Writer.Write calls Accumulate only while bytes remain, calls Compress only under Accumulate's trigger, writes no other receiver field than the sticky error, no other operation calls Accumulate, and gzip/zlib hand p to the compressor whole.",
+			"(R09.2) Writer.Write calls Accumulate only while bytes remain, calls Compress only under Accumulate's trigger, writes no other receiver field than the sticky error, no other operation calls Accumulate, and gzip/zlib hand p to the compressor whole; (R09.3) the trigger fires exactly when the cursor reaches the bound that limits the copy (same linear expression on both sides), so the compression points are a function of the byte count alone.",
 		NotDecided: []string{
 			"everything inside the compressors: cursor arithmetic, match finder safety margins, token limits",
 			"byte-for-byte equality of outputs for two partitions",
@@ -111,6 +112,14 @@ func atomKey(v ssa.Value) (string, bool) {
 			}
 		}
 	}
+	switch x := v.(type) {
+	case *ssa.Parameter:
+		return "param:" + x.Name(), true
+	case *ssa.Phi:
+		return "phi:" + x.Name(), true
+	case *ssa.Extract:
+		return "val:" + x.Name(), true
+	}
 	if bo, ok := v.(*ssa.BinOp); ok && (bo.Op == token.QUO || bo.Op == token.SHR) {
 		if k, ok := atomKey(bo.X); ok {
 			if c, isK := constInt(bo.Y); isK {
@@ -150,6 +159,20 @@ func linearize(v ssa.Value) linForm {
 				add(x.X, coef)
 				add(x.Y, -coef)
 				return
+			case token.MUL:
+				if k, ok := constInt(x.X); ok {
+					add(x.Y, coef*k)
+					return
+				}
+				if k, ok := constInt(x.Y); ok {
+					add(x.X, coef*k)
+					return
+				}
+			case token.SHL:
+				if k, ok := constInt(x.Y); ok && k >= 0 && k < 32 {
+					add(x.X, coef*(1<<uint(k)))
+					return
+				}
 			}
 		case *ssa.UnOp:
 			if x.Op == token.SUB {
@@ -876,5 +899,125 @@ func ruleR05_4(p *Program, r *Report) {
 	}
 	if n == 0 {
 		r.OK("R05.4", "no-constant-stores", "-", "no constant store to inflate.bits/bitsLen outside reset")
+	}
+}
+
+// R09.3: Accumulate's trigger compares the cursor with the very bound of the copy.
+func ruleR09_3(p *Program, r *Report) {
+	r.Expect("R09.3", 2)
+	for _, tr := range p.CompressorTypes() {
+		fn := tr.Ops["Accumulate"]
+		if fn == nil {
+			continue
+		}
+		key := shortFn(fn) + "|trigger at the copy bound"
+		// copy(buffer[cursor:bound], data)
+		var bound ssa.Value
+		cursorSel := ""
+		for _, c := range allCalls(fn) {
+			if bi, ok := c.Common().Value.(*ssa.Builtin); ok && bi.Name() == "copy" && c.Common().Args[1] == ssa.Value(fn.Params[1]) {
+				if sl, ok := c.Common().Args[0].(*ssa.Slice); ok && sl.High != nil && sl.Low != nil {
+					bound = sl.High
+					if _, sel, ok := fieldLoad(stripConv(sl.Low)); ok {
+						cursorSel = sel
+					}
+				}
+			}
+		}
+		if bound == nil || cursorSel == "" {
+			r.Undecided("R09.3", key, p.Pos(fn.Pos()), "Accumulate copies into buffer[cursor:bound]", "copy shape not recognised")
+			continue
+		}
+		lb := linearize(bound)
+		if !lb.ok {
+			r.Undecided("R09.3", key, p.Pos(fn.Pos()), "the copy bound has a linear normal form", bound.String())
+			continue
+		}
+		// the trigger: the If whose edges lead to returns with different constant trigger results
+		good, seen := false, false
+		why := "no comparison of the cursor with the copy bound decides the trigger"
+		for _, b := range fn.Blocks {
+			iff, ok := b.Instrs[len(b.Instrs)-1].(*ssa.If)
+			if !ok {
+				continue
+			}
+			bo, ok := iff.Cond.(*ssa.BinOp)
+			if !ok {
+				continue
+			}
+			// does this branch decide the trigger? one side returns true, the other false
+			trig := map[bool]bool{}
+			for k, s := range b.Succs {
+				for _, in := range s.Instrs {
+					if ret, ok := in.(*ssa.Return); ok && len(ret.Results) == 2 {
+						if v, isB := constBool(ret.Results[1]); isB {
+							trig[k == 0] = v
+						}
+					}
+				}
+			}
+			if len(trig) == 0 {
+				continue
+			}
+			// normalise: cursor (op) bound  <=>  lhs - rhs (op) 0
+			l := linearize(bo.X)
+			rr := linearize(bo.Y)
+			if !l.ok || !rr.ok {
+				continue
+			}
+			diff := map[string]int64{}
+			for k, v := range l.terms {
+				diff[k] += v
+			}
+			for k, v := range rr.terms {
+				diff[k] -= v
+			}
+			kdiff := l.k - rr.k
+			if diff[cursorSel] == 0 {
+				continue
+			}
+			seen = true
+			// expected: cursor - bound with constant 0 and op in {<, ==, >=, !=}
+			wantTerms := map[string]int64{cursorSel: 1}
+			for k, v := range lb.terms {
+				wantTerms[k] -= v
+			}
+			sign := int64(1)
+			if diff[cursorSel] < 0 {
+				sign = -1
+			}
+			match := true
+			for k, v := range wantTerms {
+				if diff[k]*sign != v {
+					match = false
+				}
+			}
+			for k, v := range diff {
+				if v != 0 && wantTerms[k] != v*sign {
+					match = false
+				}
+			}
+			kk := kdiff*sign + lb.k
+			okOp := false
+			switch bo.Op {
+			case token.LSS, token.GEQ, token.EQL, token.NEQ, token.GTR, token.LEQ:
+				// cursor - bound + kk (op) 0 ; exactness requires the threshold to be the bound itself
+				if (bo.Op == token.LSS || bo.Op == token.GEQ || bo.Op == token.EQL || bo.Op == token.NEQ) && kk == 0 {
+					okOp = true
+				}
+				if (bo.Op == token.LEQ || bo.Op == token.GTR) && ((sign == 1 && kk == 1) || (sign == -1 && kk == -1)) {
+					okOp = true // cursor <= bound-1
+				}
+			}
+			if match && okOp {
+				good = true
+			} else {
+				why = "the trigger compares " + l.String() + " " + bo.Op.String() + " " + rr.String() + ", which is not 'cursor reaches " + lb.String() + "' (the bound of the copy)"
+			}
+		}
+		if !seen {
+			why = "no branch on the cursor decides the trigger"
+		}
+		r.Check(good, "R09.3", key, p.Pos(fn.Pos()), "the trigger fires exactly when the accumulation cursor "+cursorSel+" reaches the bound of the copy", why)
 	}
 }
